@@ -91,8 +91,8 @@ def run_image(arg):
         bs = 4096
         with core.Scratch("c10") as work:
             ip = os.path.join(work, "i.sqfs")
-            if kind == "tool":
-                comp = ["gzip", "xz", "lzma", "lz4", "zstd"][idx % 5]
+            if kind in ("tool", "lzma-size"):
+                comp = ["gzip", "xz", "lzma", "lz4", "zstd"][idx % 5] if kind == "tool" else "lzma"
                 tree, _ = gentree.gen_tree(r, bs=bs, max_entries=40, want=("xattr", "links"))
                 for p, n in tree.items():
                     if n.uid == 0xFFFFFFFF:
@@ -112,6 +112,17 @@ def run_image(arg):
                     return oc
                 data = open(ip, "rb").read()
                 im = sqfsimg.parse(data)
+                if kind == "lzma-size":
+                    # damaged tool image: the uncompressed-size field in the LZMA header of metadata blocks claims more than the
+                    # stream holds; what lies behind the real end must not depend on what was decompressed before
+                    n = 0
+                    for pos, (hdr, stored, unc) in sorted(im.meta_blocks.items()):
+                        if not hdr & 0x8000 and unc < 8192 and (n + idx) % 2 == 0:
+                            data = sqfsimg.patch(data, pos + 2 + 5, 8, 8192 if idx % 3 else unc + 100)
+                        n += 1
+                    with open(ip, "wb") as fh:
+                        fh.write(data)
+                    oc.notes.append("damaged: lzma size fields")
             else:
                 # damaged image: a field mutation of a writer image; the catalogue comes from the valid original
                 bt = c05.base_trees()
@@ -264,7 +275,7 @@ def main(tier):
     build.build("asan")
     harness()
     nt, nd = (10, 30) if tier == "quick" else (60, 400)
-    items = [(i, "tool", tier) for i in range(nt)] + [(i, "damaged", tier) for i in range(nd)]
+    items = [(i, "tool", tier) for i in range(nt)] + [(i, "damaged", tier) for i in range(nd)] + [(i, "lzma-size", tier) for i in range(4 if tier == "quick" else 24)]
     for oc in core.pmap(run_image, items):
         rep.add(oc)
     rep.evaluations = rep.counters.get("history_queries", 0)
